@@ -135,7 +135,7 @@ Proof.
   assert (E : (N.of_nat ((length l + Layout.K p * length (secs_from p None 0 l)) * (p + 2)) / N.of_nat (p + 2)
                = N.of_nat (length l + Layout.K p * length (secs_from p None 0 l)))%N).
   { rewrite Nat2N.inj_mul. apply N.div_mul. lia. }
-  rewrite E. unfold entry in *.
+  rewrite E.
   match goal with |- context [(?a * ?b <=? ?c)%N] =>
     replace (a * b <=? c)%N with true by (symmetry; apply N.leb_le; nia) end.
   f_equal. nia.
